@@ -85,10 +85,10 @@ func cosmosCrashCase(prop string, c *Ctx, idx int) CaseResult {
 		res.Verdict, res.Note = "inconclusive", "no client writes recorded"
 		return res
 	}
-	// crash points: thorough = every client write; quick = the splits of a plan update (document patched, search
+	// crash points: thorough (under C09/C10) = every client write; otherwise = the splits of a plan update (document patched, search
 	// entry not yet replaced) plus a PRNG sample of the others
 	var ks []int
-	if c.Tier == "thorough" {
+	if c.Tier == "thorough" && (prop == "C09" || prop == "C10") {
 		for k := 1; k <= W; k++ {
 			ks = append(ks, k)
 		}
